@@ -1137,6 +1137,32 @@ ttv_op("ttensor.ttv", TTs)
 ttm_op("ttensor.ttm", TTs, cname="ttensor_ttm", pre=_pre_ttensor_ttm)
 mttkrp_op("ttensor.mttkrp", TTs, guard="ttensor_mttkrp")
 
+
+# ttensor.reconstruct(samples, modes): one sample array per listed mode ("If samples and modes provided lengths must be equal"), the
+# modes distinct modes of the tensor (the property's clause on mode arguments; the docstring is empty).  Descriptor: shape, the mode
+# list, the number of sample arrays (each one np.array([0]): row 0 of the factor, valid for every mode)
+def _pre_reconstruct(a):
+    return modes_ok(len(a["s"]), a["modes"]) and a["nsamp"] == len(a["modes"])
+
+
+def _g_reconstruct(rng, tier):
+    out = []
+    for s in pool(tier, 1, 3):
+        s, N = list(s), len(s)
+        for d in subsets(N, rng, tier):
+            out.append(({"s": s, "modes": d, "nsamp": len(d)}, "control"))
+            out.append(({"s": s, "modes": d, "nsamp": len(d) + 1}, "list_long"))
+            if len(d) > 1:
+                out.append(({"s": s, "modes": d, "nsamp": len(d) - 1}, "list_short"))
+        for tag, d in bad_mode_lists(N):
+            out.append(({"s": s, "modes": d, "nsamp": len(d)}, tag))
+    return out
+
+
+reg("ttensor.reconstruct", "reconstruct", lambda a: f"{zl(a['s'])} {zl(a['modes'])} {gz(a['nsamp'])}", _pre_reconstruct,
+    lambda a: (lambda x: ([x], lambda: x.reconstruct([_np().array([0]) for _ in range(a["nsamp"])], list(a["modes"]))))(TTs(a["s"])),
+    _g_reconstruct)
+
 # ---------------------------------------------------------------- tenmat / sptenmat
 
 
@@ -1833,6 +1859,84 @@ reg("sptensor.scale_array", "sptensor_scale_arr", lambda a: f"{zl(a['s'])} {gboo
     lambda a: (lambda x, f: ([x, f], lambda: _quiet_warn(lambda: x.scale(f, _np().array(a["d"], dtype=int)))))(S(a["s"], a["empty"]), 1.0 + _np().arange(float(a["flen"]))),
     _g_sp_scale_arr)
 with_kinds(["sptensor.scale_array"], _SP1)
+with_kinds(["ttensor.reconstruct"], [(k, None) for k in TUCKER_KINDS])
+
+
+# ktensor.score(other, threshold=...): same shape, the receiver has at least as many components as the operand, threshold in [0, 1]
+_THR = {"none": None, "half": 0.5, "zero": 0.0, "one": 1.0, "neg": -0.1, "big": 1.5}
+
+
+def _pre_score(a):
+    return a["s"] == a["u"] and a["RA"] >= a["RB"] and a["thr"] not in ("neg", "big")
+
+
+def _g_score(rng, tier):
+    out = []
+    for s in pool(tier, 1, 3):
+        s = list(s)
+        for ra, rb in ((2, 2), (3, 2), (1, 1)):
+            for thr in ("none", "half", "zero", "one"):
+                out.append(({"s": s, "u": s, "RA": ra, "RB": rb, "thr": thr}, "control"))
+            for thr in ("neg", "big"):
+                out.append(({"s": s, "u": s, "RA": ra, "RB": rb, "thr": thr}, "threshold"))
+        for ra, rb in ((2, 3), (1, 2), (1, 3)):
+            out.append(({"s": s, "u": s, "RA": ra, "RB": rb, "thr": "none"}, "components"))
+        for tag, v in shape_variants(s):
+            for ra, rb in ((2, 2), (3, 2)):
+                out.append(({"s": s, "u": v, "RA": ra, "RB": rb, "thr": "none"}, tag))
+    return out
+
+
+reg("ktensor.score", "score", lambda a: f"{zl(a['s'])} {zl(a['u'])} {gz(a['RA'])} {gz(a['RB'])} {gbool(a['thr'] not in ('neg', 'big'))}", _pre_score,
+    lambda a: (lambda x, y: ([x, y], lambda: _quiet_warn(lambda: x.score(y, threshold=_THR[a["thr"]]))))(K(a["s"], a["RA"]), K(a["u"], a["RB"], start=3)),
+    _g_score)
+
+
+# sptensor.subdims(region): one key per mode ("Number of subdimensions must equal number of dimensions"); every key of the stream is
+# the list [0] (valid for every mode)
+def _g_subdims(rng, tier):
+    out = []
+    for s in pool(tier, 1, 4):
+        N = len(s)
+        out.append(({"s": list(s), "k": N}, "control"))
+        out.append(({"s": list(s), "k": N + 1}, "list_long"))
+        out.append(({"s": list(s), "k": N + 2}, "list_long"))
+        out.append(({"s": list(s), "k": N - 1}, "list_short"))
+        if N >= 3:
+            out.append(({"s": list(s), "k": 1}, "list_short"))
+    return out
+
+
+reg("sptensor.subdims", "subdims", lambda a: f"{zl(a['s'])} {gz(a['k'])}", lambda a: a["k"] == len(a["s"]),
+    lambda a: (lambda x: ([x], lambda: x.subdims([[0] for _ in range(a["k"])])))(S(a["s"])), _g_subdims)
+
+
+# ktensor.from_vector(data, shape, contains_weights): len(data) is a multiple of sum(shape) (+ 1 with weights)
+def _pre_from_vector(a):
+    d = sum(a["shape"]) + (1 if a["cw"] else 0)
+    return d != 0 and a["n"] % d == 0
+
+
+def _g_from_vector(rng, tier):
+    out = []
+    for s in pool(tier, 1, 4):
+        s = list(s)
+        for cw in (False, True):
+            d = sum(s) + (1 if cw else 0)
+            for R in (0, 1, 2, 3):
+                out.append(({"n": R * d, "shape": s, "cw": cw}, "control"))
+                for n in {R * d + 1, R * d - 1, R * d + R + 1, R * (d - 1) + (0 if cw else 2 * R + 1), R * math.prod(s)}:
+                    a = {"n": n, "shape": s, "cw": cw}
+                    if n >= 0:
+                        out.append((a, "control" if _pre_from_vector(a) else "count"))
+    return out
+
+
+reg("ktensor.from_vector", "from_vector", lambda a: f"{gz(a['n'])} {zl(a['shape'])} {gbool(a['cw'])}", _pre_from_vector,
+    lambda a: (lambda d: ([d], lambda: _ttb().ktensor.from_vector(d, tuple(a["shape"]), a["cw"])))(1.0 + _np().arange(float(a["n"]))),
+    _g_from_vector)
+with_kinds(["ktensor.score"], [("C", None), (None, "norm")])
+with_kinds(["sptensor.subdims"], _SP1)
 
 
 # tensor.ttsv(vector, skip_dim) (default algorithm = version 2, "Sizes of all modes must be the same"): the tensor is cubical, skip_dim
@@ -2112,7 +2216,7 @@ PROVED = {"tensor.ctor", "tensor.reshape", "tensor.innerprod", "tensor.permute",
           "tensor.getitem_linear", "tensor.setitem_linear", "tensor.scale", "ktensor.mttkrp", "sumtensor.mttkrp", "sptensor.ttm", "ttensor.ttm", "sptensor.mttkrp", "sptensor.extract", "sptensor.from_aggregator", "gcp_opt",
           "tensor.ttv", "tensor.ttm", "tensor.mttkrp", "tensor.collapse", "sptensor.ctor", "ktensor.redistribute",
           "cp_als", "hosvd", "cp_apr", "tucker_als", "sptensor.ttv", "ktensor.ttv", "ttensor.ttv", "sumtensor.ttv",
-          "sptensor.collapse", "ttensor.mttkrp", "ktensor.normalize_mode", "sptensor.innerprod_ktensor", "sptensor.innerprod_ttensor", "sptensor.contract", "sptensor.nvecs", "sptensor.scale_dense", "sptensor.scale_sparse", "sptensor.scale_array", "tensor.ttsv", "ktensor.update", "tensor.mask", "sptensor.mask", "ktensor.mask", "ktensor.mask_sparse"} | set(W4_SAME_SHAPE)      # guard_same_shape: C19_same_shape
+          "sptensor.collapse", "ttensor.mttkrp", "ktensor.normalize_mode", "sptensor.innerprod_ktensor", "sptensor.innerprod_ttensor", "sptensor.contract", "sptensor.nvecs", "sptensor.scale_dense", "sptensor.scale_sparse", "sptensor.scale_array", "tensor.ttsv", "ttensor.reconstruct", "ktensor.score", "sptensor.subdims", "ktensor.from_vector", "ktensor.update", "tensor.mask", "sptensor.mask", "ktensor.mask", "ktensor.mask_sparse"} | set(W4_SAME_SHAPE)      # guard_same_shape: C19_same_shape
 
 
 def tagfinding(fid, ops, tags, witness_op, witness, what, call_site, extra=lambda a: True, proposed="fix"):
@@ -2256,6 +2360,15 @@ finding("C19-N27", "c19_n27_empty_sparse_scale_array",
         "'self.nnz == 0' early return covers tensor / sptensor factors only, so a receiver that stores no entry answers for a vector "
         "of ANY length and for any number of listed modes (a receiver with an entry raises 'Size mismatch in scale', or ValueError "
         "for several modes; tensor.scale raises ValueError)", "sptensor.scale")
+
+
+finding("C19-N29", "c19_n29_reconstruct_modes",
+        lambda op, a: op == "ttensor.reconstruct" and a["nsamp"] == len(a["modes"]) and not modes_ok(len(a["s"]), a["modes"])
+        and all(-len(a["s"]) <= m < len(a["s"]) for m in a["modes"]),
+        "ttensor.reconstruct", {"s": [2, 3, 4], "modes": [-1], "nsamp": 1},
+        "ttensor.reconstruct(samples, modes): the modes are used as Python list indices (full_samples[mode] = sample) without a test: a "
+        "negative mode wraps around (modes=[-1] samples the last mode) and a mode listed twice is answered (the later sample silently "
+        "replaces the earlier one); only a mode >= ndims ends in IndexError", "ttensor.reconstruct")
 
 
 def _ttsv_answered(a):
